@@ -47,8 +47,11 @@ def _bk_cfgs(tier):
     pairs = [(a, b) for a in OPS for b in OPS if a[0] != 'fraction' or b[0] != 'fraction']
     step = 1 if tier != 'quick' else 3
     out += [dict(seq=[list(a), list(b)]) for a, b in pairs[::step]]
-    out += [dict(seq=[['trim', 3], ['trim', 2], ['trim', 1]]), dict(seq=[['active', 2], ['trim', None], ['active', 1]]),
-            dict(seq=[['trim', 3], ['active', 1], ['trim', 2]])]
+    triples = [dict(seq=[['trim', 3], ['trim', 2], ['trim', 1]]), dict(seq=[['active', 2], ['trim', None], ['active', 1]]),
+               dict(seq=[['trim', 3], ['active', 1], ['trim', 2]])]
+    out += triples
+    # the object-backed model class (its own alternative constructor and increment wrappers): single operations and the triples
+    out += [dict(seq=[list(o)], backed='pointcloud') for o in OPS] + [dict(t, backed='pointcloud') for t in triples]
     return out
 
 
@@ -57,19 +60,34 @@ def _bk_cfgs(tier):
     'menpo.model.pca:PCAVectorModel.trim_components', 'menpo.model.pca:PCAVectorModel.original_variance',
     'menpo.model.pca:PCAVectorModel.variance', 'menpo.model.pca:PCAVectorModel.noise_variance', 'menpo.model.pca:PCAVectorModel.eigenvalues',
     'menpo.model.pca:PCAVectorModel.components', 'menpo.model.pca:PCAVectorModel.variance_ratio'])
-def bookkeeping(ctx, seq):
+def bookkeeping(ctx, seq, backed='vector'):
     """symbolic spectrum and components; every operation sequence keeps the
-    invariant, and trimming to m components is the model built with m."""
-    from menpo.model import PCAVectorModel
-    k, d = 4, 3
+    invariant, and trimming to m components is the model built with m - for
+    the vector model and for the object-backed PCAModel (point-cloud mean)."""
+    from menpo.model import PCAVectorModel, PCAModel
+    from menpo.shape import PointCloud
+    k, d = (4, 3) if backed == 'vector' else (4, 4)
     e = ctx.reals('e', k, lo=0.01, hi=100.0)
     for i in range(k - 1):
         ctx.assume(e[i] > e[i + 1], 'spectrum descending')
     C = ctx.reals('C', (k, d))
     mu = ctx.reals('mu', d)
     total = np.sum(np.asarray(e))
-    m = PCAVectorModel.init_from_components(np.array(C, copy=True), np.array(e, copy=True), np.array(mu, copy=True), 9, True)
+    if backed == 'vector':
+        build = lambda **kw: PCAVectorModel.init_from_components(np.array(C, copy=True), np.array(e, copy=True), np.array(mu, copy=True), 9, True, **kw)
+    else:
+        build = lambda **kw: PCAModel.init_from_components(np.array(C, copy=True), np.array(e, copy=True),
+                                                           PointCloud(np.array(mu, copy=True).reshape(2, 2)), 9, True, **kw)
+    m = build()
     invariant(ctx, 'built', m, total)
+    # 'gives the same model as building with that many components in the first place', straight from the constructor
+    for mc in (1, 2, 3, 4, 9):
+        built = build(max_n_components=mc)
+        invariant(ctx, 'built-with(%d)' % mc, built, total)
+        ctx.check_true('built-with(%d)/n_components' % mc, built.n_components == min(mc, k))
+        trimmed = build()
+        trimmed.trim_components(mc)
+        compare_obs(ctx, 'built-with(%d)==built-then-trimmed' % mc, observable(ctx, built), observable(ctx, trimmed))
     n_kept = k
     for step, (op, arg) in enumerate(seq):
         tag = 'step%d:%s(%s)' % (step, op, arg)
@@ -111,8 +129,7 @@ def bookkeeping(ctx, seq):
             m.trim_components(arg)
             n_kept = m.n_components
             ref_n = n_kept
-            ref = PCAVectorModel.init_from_components(np.array(C, copy=True), np.array(e, copy=True), np.array(mu, copy=True), 9, True,
-                                                      max_n_components=ref_n)
+            ref = build(max_n_components=ref_n)
             compare_obs(ctx, tag + '/==model-built-with-that-many-components', observable(ctx, m), observable(ctx, ref))
         invariant(ctx, tag, m, total)
         ctx.check_eq(tag + '/eigenvalues-are-the-leading-ones', m.eigenvalues, np.asarray(e)[:m.n_active_components])
@@ -208,3 +225,18 @@ def decomposition_native(ctx, side, centre, backed, spectrum='mild'):
         ctx.check_eq('trim(%d)==built-with/noise-variance' % mc, m2.noise_variance(), t.noise_variance())
         m2.trim_components(max(1, mc - 1))
         ctx.check_eq('trim-twice(%d)/original-variance' % mc, m2.original_variance(), total)
+        # the alternative constructors given the same basis / the same covariance are the same model
+        cls = type(m)
+        alt = cls.init_from_components(m._components.copy(), m._eigenvalues.copy(), m.mean() if backed != 'vector' else m._mean.copy(), n, centre, max_n_components=mc)
+        ctx.check_eq('init_from_components(max=%d)/eigenvalues' % mc, alt._eigenvalues, t._eigenvalues)
+        ctx.check_eq('init_from_components(max=%d)/original-variance' % mc, alt.original_variance(), total)
+        ctx.check_eq('init_from_components(max=%d)/noise-variance' % mc, alt.noise_variance(), t.noise_variance())
+        ctx.check_eq('init_from_components(max=%d)/variance-ratio' % mc, alt.variance_ratio(), t.variance_ratio())
+        if spectrum == 'mild' and side == 'n>d':
+            # (pcacov drops eigenvalues below 1e-5 of the largest - a documented, different threshold: only data whose sample spectrum is well above it)
+            Cov = Xc.T.dot(Xc) / (n - 1)
+            alt = cls.init_from_covariance_matrix(Cov, m.mean() if backed != 'vector' else m._mean.copy(), n, centred=centre, max_n_components=mc)
+            ctx.check_eq('init_from_covariance_matrix(max=%d)/eigenvalues' % mc, alt._eigenvalues, t._eigenvalues, tol=1e-6)
+            ctx.check_eq('init_from_covariance_matrix(max=%d)/components' % mc, np.abs(alt._components), np.abs(t._components), tol=1e-5)
+            ctx.check_eq('init_from_covariance_matrix(max=%d)/original-variance' % mc, alt.original_variance(), total, tol=1e-6)
+            ctx.check_eq('init_from_covariance_matrix(max=%d)/noise-variance' % mc, alt.noise_variance(), t.noise_variance(), tol=1e-6)
